@@ -97,7 +97,9 @@ class C11(Prop):
             "operations x 14 seed fields (parsed with assorted layouts, empty entries, substitution variables; constructor-built; empty); random histories "
             "of 1-10 operations (all 14 operations, every way of building operands: parsed with random layout, Relation::new/simple, the builder, "
             "From<lossy::Relation>, Entry::from(vec)/Entry::new+push/parsed) from random well-formed fields, each run through fresh handles, through "
-            "handles obtained earlier, and (every 5th) through handles never obtained again; a malformed stream (arbitrary and mutated initial texts, "
+            "handles obtained earlier, and (every 5th) through handles never obtained again; histories whose operands are LIVE handles of the field itself "
+            "(push/insert/replace of an entry of the field, Entry::push/replace of a relation of the field: the list model inserts a copy; "
+            "known class c11-replace-live-operand-moved: replace moves such an operand); a malformed stream (arbitrary and mutated initial texts, "
             "operand texts and register programs); non-trivial = at least one operation took effect")
     trusted = ["Coq 8.16.1 kernel (vm_compute for the finite witnesses only)",
                "hand transcription of the editing functions of debian-control/src/lossless/relations.rs into coq/model/RelEdit.v, tied to the code by the rel-edit stream on every run",
